@@ -161,6 +161,8 @@ def main(argv=None) -> int:
                 "failure": r.get("failure"),
                 "how_to_replay": "cd /verif && ./check %s --replay <this file>" % pid,
             }
+            if r.get("replay_func_override"):
+                rec["func"] = r["replay_func_override"]
             if o["kind"] != "ch" and r.get("replay_module"):
                 rec["module"], rec["func"] = r["replay_module"], r["replay_func"]
                 if r.get("replay_params") is not None:
